@@ -32,14 +32,31 @@ from .yp_prolog_visitor import *
 from .yp_generator import *
 import contextlib
 import click
-from .errors import CompilerError
+from antlr4.error.ErrorListener import ErrorListener
+from .errors import CompilerError, CompilerSyntaxError
+
+class _RaisingErrorListener(ErrorListener):
+    '''turns every error reported by the lexer or parser into an exception.'''
+    def __init__(self, filename):
+        self.filename = filename
+    def syntaxError(self, recognizer, offendingSymbol, line, column, msg, e):
+        raise CompilerSyntaxError(self.filename, line, column, msg)
 
 def _compile_prolog_from_stream(inp, ctx):
     '''compiles prolog source from an antlr4 stream.'''
+    filename = getattr(ctx, 'current_source_file', '')
+    listener = _RaisingErrorListener(filename)
     lexer = prologLexer(inp)
+    lexer.removeErrorListeners()
+    lexer.addErrorListener(listener)
     stream = CommonTokenStream(lexer)
     parser = prologParser(stream)
+    parser.removeErrorListeners()
+    parser.addErrorListener(listener)
     tree = parser.program()
+    if stream.LA(1) != Token.EOF:
+        t = stream.LT(1)
+        raise CompilerSyntaxError(filename, t.line, t.column, f"unexpected input '{t.text}'")
     visitor = YPPrologVisitor(ctx)
     program = visitor.visit(tree)
     compiler = YPPrologCompiler(ctx)
